@@ -38,11 +38,27 @@ class Snapshot:
                                            for name, kind, v in intro.field_values(pm) if isinstance(v, internal.Repeated)}
             except Exception:
                 self.parent = None
-        if self.parent is not None and not isinstance(self.parent, base.RawTokenModel):
+        # the models whose public attributes are read before the op (so that every cached view exists when it runs) and
+        # compared with a deep copy after it: the edited model and the receiver of the call
+        self.watch = []
+        for m in (self.parent, self._receiver(root, op)):
+            if m is not None and not isinstance(m, (base.RawTokenModel, internal.Repeated)) and not any(m is w for w in self.watch):
+                self.watch.append(m)
+        for m in self.watch:
             try:
-                self.primed = intro.public_reads(self.parent)   # reads before the op: every cached view exists when the op runs
+                intro.public_reads(m)
             except Exception:
-                self.primed = None
+                pass
+
+    @staticmethod
+    def _receiver(root, op):
+        if not op or not op.get('path'):
+            return None
+        try:
+            m = intro.resolve(root, op['path'])
+        except Exception:
+            return None
+        return m if isinstance(m, base.RawTreeModel) else None
 
 
 # ---- oracles: each returns a list of (signature, description) ------------------------------------------
@@ -375,18 +391,18 @@ def o_fresh(root, pre, op, res, extra):
     """What the public attributes of the edited model read is a function of its content, not of its history: every
     attribute reads the same on the model and on a deep copy of it made now (the copy has seen no history: no cached view,
     no registered handler, no remembered child)."""
-    pm = pre.parent
-    if pm is None or isinstance(pm, base.RawTokenModel) or pm.token_store is not root.token_store:
-        return []
-    try:
-        twin = copy.deepcopy(pm)
-    except Exception as e:
-        return [(f'fresh:deepcopy-raises:{type(pm).__name__}', repr(e)[:200])]
-    a, b = intro.public_reads(pm), intro.public_reads(twin)
-    for name in a:
-        if a[name] != b.get(name):
-            return [(f'fresh:{type(pm).__name__}.{name}', f'after {op["kind"]} on {type(pm).__name__}: .{name} reads {str(a[name])[:160]} on the edited model '
-                     f'but {str(b.get(name))[:160]} on a deep copy of it')]
+    for pm in getattr(pre, 'watch', []):
+        if pm.token_store is not root.token_store:
+            continue
+        try:
+            twin = copy.deepcopy(pm)
+        except Exception as e:
+            return [(f'fresh:deepcopy-raises:{type(pm).__name__}', repr(e)[:200])]
+        a, b = intro.public_reads(pm), intro.public_reads(twin)
+        for name in a:
+            if a[name] != b.get(name):
+                return [(f'fresh:{type(pm).__name__}.{name}', f'after {op["kind"]} on {type(pm).__name__}: .{name} reads {str(a[name])[:160]} on the edited model '
+                         f'but {str(b.get(name))[:160]} on a deep copy of it')]
     return []
 
 
